@@ -191,9 +191,13 @@ class pcorrelogram(FourierSpectrum):
                              #   scale_by_freq=self.scale_by_freq,
                              )
         if self.datatype == 'real':
-            #FIXME. do we want to use same syntax/code as in burg/pminvar/pcovar
-            # to handle odd data ?
-            self.psd = tools.twosided_2_onesided(psd)
+            if self.NFFT % 2 == 0:
+                self.psd = tools.twosided_2_onesided(psd)
+            else:
+                # same code as in burg/pminvar/pcovar: no Nyquist frequency
+                newpsd = psd[0:int((self.NFFT+1)/2)] * 2
+                newpsd[0] /= 2.
+                self.psd = newpsd
         else:
             self.psd = psd
         self.scale()
